@@ -77,6 +77,7 @@ REGEXES = [
     r"[^/]*\.tar\.gz$", r"~$", r"\.[a-z]+\.bak$", r"\$\$\$$", r"\.[^/.]*$", r"README", r"QZ[0-9]", r"LICEN[SC]E", r"\.PY",
     r".*", r"",
 ]  # fmt: skip
+FLAG_SENSITIVE = [r"\.py$", r"\.js$", r"\.html$", r"\.css$", r"\.txt$", r"\.PY", r"README", r"\.m?js$"]
 STEMS = ["a", "x", "main", "a+b", "a.b", "A", "__init__", ".hid", "my-comp", "a b", "(1)", "a$", "README", "QZ7", "LICENSE", "é", "x.py", "x.js", "a.tar", "c"]
 EXTS = [
     ".js", ".JS", ".jsx", ".mjs", ".j", ".css", ".py", ".pyc", ".pyo", ".PY", ".Py", ".py~", ".py.js", ".js.py", ".py.bak",
@@ -94,9 +95,14 @@ SOUP = ["..", "..", ".", "sub", "comp", "comp2", "comp_evil", "proj", "ui", "wid
 # model
 
 
+def _rx(e):
+    """['r', source] or ['r', source, 'I'] (compiled with re.IGNORECASE: the flag is NOT part of the pattern source)"""
+    return re.compile(e[1], re.IGNORECASE) if len(e) > 2 and e[2] == "I" else re.compile(e[1])
+
+
 def _compile(entries):
-    """[['s', suffix] | ['r', source]] -> [('s', suffix) | ('r', compiled)]"""
-    return [("s", v) if k == "s" else ("r", re.compile(v)) for k, v in entries]
+    """[['s', suffix] | ['r', source] | ['r', source, 'I']] -> [('s', suffix) | ('r', compiled)]"""
+    return [("s", e[1]) if e[0] == "s" else ("r", _rx(e)) for e in entries]
 
 
 def _accepts(entry, name):
@@ -161,7 +167,7 @@ def _effective(case):
 def _setting_value(entries):
     if entries is None:
         return None
-    return [v if k == "s" else re.compile(v) for k, v in entries]
+    return [e[1] if e[0] == "s" else _rx(e) for e in entries]
 
 
 def _lookups(root, roots, all_files, extra):
@@ -351,9 +357,9 @@ def run_case(case, col=None):
                 labels.append("settings_as_object")
             if any(k == "r" for k, _ in entries):
                 labels.append("cfg_regex")
-            if any(k == "s" and v.count(".") > 1 for k, v in entries):
+            if any(e[0] == "s" and e[1].count(".") > 1 for e in entries):
                 labels.append("cfg_multidot_suffix")
-            if any(k == "s" and _special_entry((k, v)) and v.count(".") <= 1 for k, v in entries):
+            if any(e[0] == "s" and _special_entry((e[0], e[1])) and e[1].count(".") <= 1 for e in entries):
                 labels.append("cfg_metachar_suffix")
             if look:
                 labels.append("tree_lookalike")
@@ -390,7 +396,7 @@ def _short(p, root):
 
 def _cfg_str(case):
     def f(x):
-        return "default" if x is None else "[" + ", ".join(("%r" % v) if k == "s" else "re(%r)" % v for k, v in x) + "]"
+        return "default" if x is None else "[" + ", ".join(("%r" % e[1]) if e[0] == "s" else "re(%r%s)" % (e[1], ", re.I" if len(e) > 2 else "") for e in x) + "]"
 
     return "allowed=%s %s=%s" % (f(case["allowed"]), case.get("forbidden_key", "static_files_forbidden"), f(case["forbidden"]))
 
@@ -407,14 +413,17 @@ def case_strategy(max_files):
     from hypothesis import strategies as st
 
     suffix = st.one_of(st.sampled_from(PLAIN_SUFFIXES), st.sampled_from(MULTIDOT_SUFFIXES), st.sampled_from(META_SUFFIXES))
-    entry = st.one_of(suffix.map(lambda s: ["s", s]), suffix.map(lambda s: ["s", s]), st.sampled_from(REGEXES).map(lambda r: ["r", r]))
+    # flagged regexes share their pattern *source* with unflagged ones and with the regex a plain suffix is turned into
+    flagged = st.sampled_from(FLAG_SENSITIVE).flatmap(lambda r: st.sampled_from([["r", r, "I"], ["r", r, "I"], ["r", r]]))
+    entry = st.one_of(suffix.map(lambda s: ["s", s]), suffix.map(lambda s: ["s", s]), st.sampled_from(REGEXES).map(lambda r: ["r", r]), flagged)
     custom = st.lists(entry, min_size=1, max_size=3)
     # weights: default 3/12, empty 1/12, custom 8/12
     entries = st.integers(0, 11).flatmap(lambda k: st.none() if k < 3 else st.just([]) if k < 4 else custom)
 
     def derived_exts(cfg_entries):
         out = []
-        for k, v in cfg_entries:
+        for e_ in cfg_entries:
+            k, v = e_[0], e_[1]
             if k != "s":
                 continue
             out += [v, v.upper(), v.lower(), v + "x", v + "~", v[1:], "X" + v[1:], "." + v[1:].replace(".", "X"), v[:-1], v + ".py", ".py" + v]
